@@ -374,7 +374,8 @@ def gen_race(t: Tape, idx: int) -> dict:
         writers.append(w)
     knobs = {"sched": t.pick(["focus", "uniform", "focus"], "r.sched"), "switch_permille": t.pick([500, 300, 800, 150], "r.sw"),
              "wchunk": t.pick([1 << 16, 64], "r.wc"), "tmp_shared": bool(t.choose(2, "r.tmp"))}
-    case = {"layer": "L2", "init": init, "writers": writers, "knobs": knobs, "tape": {"seed": t.choose(1 << 30, "r.tseed")}}
+    case = {"layer": "L2", "init": init, "writers": writers, "knobs": knobs, "tape": {"seed": t.choose(1 << 30, "r.tseed")},
+            "fmode": t.pick([0o644, 0o444, 0o600, 0o400, 0o664, 0o755], "r.fmode")}
     if t.flag(200, "r.kill"):
         case["fault_cfg"] = {"rate": 60, "boost": 60, "max": 1, "kinds": ["kill"], "window": 0}
         case["ftape"] = {"seed": t.choose(1 << 30, "r.fseed")}
@@ -396,7 +397,7 @@ def run_race(case: dict, stats: Stats | None = None) -> dict:
     root = fsmodel.fresh_root("r")
     spec = [("d", "sb", 0o755), ("f", "sb/other.oct.md", b"===O===\nX::1\n===END===\n", 0o644)]
     if case["init"] is not None:
-        spec.append(("f", TARGET, case["init"].encode(), 0o644))
+        spec.append(("f", TARGET, case["init"].encode(), case.get("fmode", 0o644)))
     fsmodel.build_tree(root, spec)
     target = os.path.join(root, TARGET)
     tape = _tape_of(case.get("tape"))
@@ -477,6 +478,18 @@ def run_race(case: dict, stats: Stats | None = None) -> dict:
                 V("I3.success-no-install", f"writer {i} returned success without installing", trace)
             elif o.get("hash") and mine[-1].get("post") != o["hash"]:
                 V("I3.success-hash", f"writer {i} installed {str(mine[-1].get('post'))[:12]}, reported {o['hash'][:12]}", trace)
+    # an existing file keeps its permission bits whatever the mix of successful and failed writers (every install preserves
+    # them, every failed call leaves things as they were)
+    if case["init"] is not None and not any(o["status"] == "crash" for o in outs):
+        try:
+            fm = seam.real("lstat")(target).st_mode & 0o7777
+        except OSError:
+            fm = None
+        if fm is not None and fm != case.get("fmode", 0o644):
+            culprits = [i for i, a in enumerate(actors) if any(op.name in ("chmod", "fchmod") and op.path == target and op.outcome == "ok"
+                                                               for op in a.ops)]
+            V("I3.mode", f"the target's permission bits changed {oct(case.get('fmode', 0o644))} -> {oct(fm)}; writers that chmod'ed the "
+                         f"target path: {culprits}; outcomes={outs}", trace)
     if sim.deadlock:
         V("deadlock", f"writers blocked forever on locks: {[a.name for a in actors if a.outcome is None]}", trace)
     # bounded liveness after a crash (recorded, not asserted)
@@ -635,7 +648,7 @@ def run_l2x_pair(i: int, j: int, stats: Stats, viols: list, cap: int = 3000):
     n = 0
     while n < cap:
         case = {"layer": "L2", "init": L2X_INIT, "writers": [wi, wj], "knobs": {"sched": "enum"}, "tape": {"values": list(prefix)},
-                "prop": PROP, "seed": 0, "enumerated": [i, j]}
+                "prop": PROP, "seed": 0, "enumerated": [i, j], "fmode": 0o444 if (i + j) % 2 else 0o644}
         res = run_race(case, stats)
         n += 1
         for v in res["violations"]:
